@@ -61,11 +61,21 @@ func (rows *leveldbRows) ReplaceOrInsert(r *btpb.Row) {
 }
 
 func (rows *leveldbRows) Clear() {
-	if err := rows.db.Close(); err != nil {
+	// Delete the rows in place, in one atomic batch, instead of closing the database and starting a new one:
+	// a scan that has given up the table lock while it streams a response still holds an iterator on this
+	// database, and closing the database under it makes the scan panic ("leveldb/table: reader released").
+	batch := new(leveldb.Batch)
+	it := rows.db.NewIterator(nil, nil)
+	for ok := it.First(); ok; ok = it.Next() {
+		batch.Delete(append([]byte(nil), it.Key()...))
+	}
+	it.Release()
+	if err := it.Error(); err != nil {
 		panic(err)
 	}
-	verifPoint("rows.clear.afterClose", nil)
-	rows.db = rows.newFunc(true)
+	if err := rows.db.Write(batch, nil); err != nil {
+		panic(err)
+	}
 }
 
 func (rows *leveldbRows) Close() {
